@@ -448,6 +448,29 @@ impl Prop for C09 {
                         }
                     }
                 }
+                // the other public ways of building the settings: only a host name (protocol version "unknown" = -1), the
+                // default, and the conversion from the generic extra settings
+                for h in &hosts {
+                    let a = SocketAddr::new(IP4, 25565);
+                    let built: Vec<(&str, gamedig::games::minecraft::RequestSettings, String, i32)> = vec![
+                        ("new_just_hostname", gamedig::games::minecraft::RequestSettings::new_just_hostname(h.clone()), h.clone(), -1),
+                        ("default", gamedig::games::minecraft::RequestSettings::default(), "gamedig".to_string(), -1),
+                        ("from extra settings (host name only)", gamedig::protocols::types::ExtraRequestSettings::default().set_hostname(h.clone()).into(), h.clone(), -1),
+                        ("from extra settings (host name, protocol 47)", gamedig::protocols::types::ExtraRequestSettings::default().set_hostname(h.clone()).set_protocol_version(47).into(), h.clone(), 47),
+                    ];
+                    for (how, settings, want_host, want_pv) in built {
+                        let x = run_query(mc_server(1), Box::new(Faithful), Chooser::new(&[]), || {
+                            gamedig::games::minecraft::protocol::query_java(&a, None, Some(settings.clone())).map(|r| to_json(&r))
+                        });
+                        ctx.account(&x, 0);
+                        ctx.distinct_key(&(h, how));
+                        let exp = vec![ConnExpect { tcp: true, addr: a, sends: java_requests(&want_host, want_pv, 25565) }];
+                        let got = observed_exchange(&x.log);
+                        if got != exp {
+                            ctx.violation("java-handshake", &[], format!("handshake with settings built by {how} for host {:?}", clip(h, 40)), render_exchange(&got), render_exchange(&exp), render_log(&x.log));
+                        }
+                    }
+                }
                 ctx.sample(serde_json::json!({"case": case.label, "combinations": hosts.len() * versions.len() * ports.len()}));
             }
         }
